@@ -103,6 +103,9 @@ type Payment struct {
 	FeeLimitSat uint64
 	Preimage    string
 	Attempts    int
+	// FailedBefore: attempts on this payment hash that had definitively failed when a new attempt was made (a node
+	// keeps them: Core Lightning lists one entry per attempt group, oldest first)
+	FailedBefore int
 }
 
 type Network struct {
@@ -509,6 +512,9 @@ func (b *Backend) pay(c *Call, request string, amountMsat, maxFee uint64) (light
 	if p == nil {
 		p = &Payment{Backend: b, Hash: c.Hash}
 		b.payments[c.Hash] = p
+	}
+	if p.Attempts > 0 && p.Truth == TruthFailed {
+		p.FailedBefore++
 	}
 	p.Attempts++
 	if p.Truth == TruthSucceeded {
